@@ -274,7 +274,17 @@ func (r *renderer) items(items []item, lines *[]string) {
 			for _, l := range it.labels {
 				pre += l + r.colon() + r.sp(1)
 			}
-			*lines = append(*lines, pre+it.name+r.sp(1)+r.cs("for")+r.sp(1)+r.expr(it.expr)+r.trailing())
+			if !r.plain && r.rng.Intn(6) == 0 {
+				// the counter on a line of its own, `for` on the next one
+				*lines = append(*lines, pre+it.name)
+				if r.rng.Intn(3) == 0 {
+					*lines = append(*lines, "")
+				}
+				pre = r.sp(0)
+				*lines = append(*lines, pre+r.cs("for")+r.sp(1)+r.expr(it.expr)+r.trailing())
+			} else {
+				*lines = append(*lines, pre+it.name+r.sp(1)+r.cs("for")+r.sp(1)+r.expr(it.expr)+r.trailing())
+			}
 			r.items(it.body, lines)
 			*lines = append(*lines, r.sp(0)+r.cs("rof")+r.trailing())
 		}
@@ -309,7 +319,20 @@ var reserved = map[string]bool{"dat": true, "mov": true, "add": true, "sub": tru
 	"nop": true, "equ": true, "org": true, "end": true, "for": true, "rof": true,
 	"coresize": true, "maxlength": true, "maxprocesses": true, "mindistance": true}
 
+// names with letters outside ASCII: the lexer takes every Unicode letter; some of them fold to
+// ASCII letters under simple case folding (U+017F ſ ~ s, U+212A K ~ k) and so come close to a
+// mnemonic or a pseudo-op without being one
+var exoticNames = []string{"ſne", "ſub", "ſpl", "ſeq", "ſlt", "ſ", "ſtart", "naïve", "λx", "éa", "ßeta", "Ωmega", "eKu",
+	"orɡ", "ıf", "dаt", "K", "møv", "ſpl2", "x٠"}
+
 func ident(rng *rand.Rand, used map[string]bool) string {
+	if rng.Intn(15) == 0 {
+		s := exoticNames[rng.Intn(len(exoticNames))]
+		if !used[s] {
+			used[s] = true
+			return s
+		}
+	}
 	for {
 		n := 1 + rng.Intn(6)
 		b := make([]byte, n)
@@ -958,6 +981,16 @@ func genForProgram(rng *rand.Rand, legacy bool) ([]item, []item) {
 			items = append(items, item{kind: 'I', op: "jmp", a: operand{expr: []etok{{'t', blk.labels[0]}}}})
 		}
 	}
+	if rng.Intn(10) == 0 {
+		// a block that is emitted zero times and contains many blocks: more FOR keywords than the
+		// pass limit, hardly any expansion
+		z := item{kind: 'F', name: ident(rng, used), expr: []etok{{'n', "0"}}}
+		for k := 6 + rng.Intn(10); k > 0; k-- {
+			z.body = append(z.body, item{kind: 'F', name: ident(rng, used), expr: []etok{{'n', fmt.Sprint(1 + rng.Intn(3))}},
+				body: []item{genInstr(rng, env, o)}})
+		}
+		items = append(items, z)
+	}
 	if rng.Intn(2) == 0 {
 		items = append(items, genInstr(rng, env, o))
 	}
@@ -1097,6 +1130,33 @@ func emitAsm(out *bufio.Writer, id, tag string, cfg gmars.SimulatorConfig, text 
 	fmt.Fprintln(out)
 }
 
+// lookAlikes rewrites some operands of a longer program as `name+d` with one or two digits, so
+// that different instructions carry operand texts that are prefixes / extensions of one another
+// (`x+1` on line 10, `x+11` on line 0)
+func lookAlikes(rng *rand.Rand, items []item) {
+	var name string
+	for _, it := range items {
+		if it.kind == 'I' && len(it.labels) > 0 {
+			name = it.labels[0]
+			break
+		}
+	}
+	if name == "" {
+		return
+	}
+	ds := []string{"1", "11", "10", "2", "12", "0", "21", "111"}
+	for i := range items {
+		if items[i].kind == 'I' && rng.Intn(2) == 0 {
+			e := []etok{{'t', name}, {'o', "+"}, {'n', ds[rng.Intn(len(ds))]}}
+			if rng.Intn(2) == 0 || items[i].b == nil {
+				items[i].a.expr = e
+			} else {
+				items[i].b.expr = e
+			}
+		}
+	}
+}
+
 func genAsm(out *bufio.Writer, rng *rand.Rand, legacy bool, count int) int {
 	tag := "asm94"
 	if legacy {
@@ -1104,7 +1164,14 @@ func genAsm(out *bufio.Writer, rng *rand.Rand, legacy bool, count int) int {
 	}
 	for n := 0; n < count; n++ {
 		cfg := asmConfig(rng, legacy, rng.Intn(10) == 0)
-		items := genProgram(rng, cfg, progOpts{legacy: legacy, maxInstr: 10})
+		mi := 10
+		if rng.Intn(6) == 0 {
+			mi = 40 // longer programs: two-digit line numbers, labels far apart
+		}
+		items := genProgram(rng, cfg, progOpts{legacy: legacy, maxInstr: mi})
+		if mi == 40 {
+			lookAlikes(rng, items)
+		}
 		wire := itemsWire(items)
 		for v := 0; v < 3; v++ { // each program rendered three ways
 			text := render(rng, items, v == 0)
@@ -1199,6 +1266,36 @@ func genExpr(out *bufio.Writer, rng *rand.Rand, count int) int {
 			items = append(items, chain...)
 			names = append(names, prev, prev, prev)
 			items = append(items, item{kind: 'A', expr: []etok{{'t', prev}}})
+		}
+		if rng.Intn(60) == 0 {
+			// a long source (8 … 40 KiB) full of many-digit literals, zeros included: whatever
+			// buffer the reader uses, some literal lies across its boundary
+			var litems []item
+			nl := 200 + rng.Intn(800)
+			mode := ""
+			if legacy {
+				mode = "#"
+			}
+			digits := func() string {
+				k := 3 + rng.Intn(7)
+				b := make([]byte, k)
+				for i := range b {
+					b[i] = "0012345678900"[rng.Intn(13)]
+				}
+				if b[0] == '0' {
+					b[0] = '1'
+				}
+				return string(b)
+			}
+			for i := 0; i < nl; i++ {
+				bo := operand{mode: mode, expr: []etok{{'n', digits()}}}
+				litems = append(litems, item{kind: 'I', op: "dat", a: operand{mode: mode, expr: []etok{{'n', digits()}}}, b: &bo})
+			}
+			cfg.Length = gmars.Address(nl + 5)
+			cfg.Distance = 0
+			wire := itemsWire(litems)
+			emitAsm(out, fmt.Sprintf("xl%d", n), "expr", cfg, render(rng, litems, rng.Intn(2) == 0), wire, nil)
+			continue
 		}
 		if rng.Intn(5) == 0 {
 			// the expression is a FOR count: the number of copies is its value. A first block
